@@ -204,6 +204,48 @@ impl OodFrame {
     }
 }
 
+// ---------------------------------------------------------------------------------------------------------------------
+// Commitments::parse (air/src/proof/commitments.rs): the byte vector is exactly num_trace_segments + 1 + (num_fri_layers + 1)
+// digest encodings - trace commitments, constraint commitment, FRI commitments, in that order - and nothing else.
+// (T stands for the digest type here; its decoder is the same uninterpreted dec_t.)
+pub struct Commitments(pub Vec<u8>);
+impl SliceReader {
+    // contract of ByteReader::read::<D>() = D::read_from(self)
+    #[verifier::external_body]
+    pub fn read(&mut self) -> (r: Result<T, DeserializationError>)
+        ensures
+            r is Ok <==> dec_t(old(self).rem@) is Some,
+            r is Ok ==> r->Ok_0 == dec_t(old(self).rem@)->Some_0.0 && final(self).rem@ == dec_t(old(self).rem@)->Some_0.1,
+    { unimplemented!() }
+}
+pub open spec fn commitments_ok(b: Seq<u8>, ns: nat, nf: nat) -> bool {
+    &&& dec_many(b, ns) is Some
+    &&& dec_t(dec_many(b, ns)->Some_0.1) is Some
+    &&& dec_many(dec_t(dec_many(b, ns)->Some_0.1)->Some_0.1, nf + 1) is Some
+    &&& dec_many(dec_t(dec_many(b, ns)->Some_0.1)->Some_0.1, nf + 1)->Some_0.1.len() == 0
+}
+impl Commitments {
+    //@@ source air/src/proof/commitments.rs
+    //@@ extract anchor="pub fn parse<H: Hasher>("
+    pub fn parse(
+        self,
+        num_trace_segments: usize,
+        num_fri_layers: usize,
+    ) -> (r: Result<(Vec<T>, T, Vec<T>), DeserializationError>)
+        requires num_fri_layers < usize::MAX
+        ensures
+            r is Ok <==> commitments_ok(self.0@, num_trace_segments as nat, num_fri_layers as nat),
+            r is Ok ==> {
+                let a = dec_many(self.0@, num_trace_segments as nat)->Some_0;
+                let c = dec_t(a.1)->Some_0;
+                let f = dec_many(c.1, (num_fri_layers + 1) as nat)->Some_0;
+                r->Ok_0.0@ == a.0 && r->Ok_0.1 == c.0 && r->Ok_0.2@ == f.0
+            },
+    {
+        /*@@body*/
+    }
+}
+
 proof fn oodv_canary_must_fail(b: Seq<u8>)
     requires trace_ok(b, 1)
     ensures b.len() == 1
